@@ -50,6 +50,17 @@ DOCS = {
     "dext1": '<!DOCTYPE a SYSTEM "e1.dtd"><a><b id="i1">&e;</b></a>',
     "dext2": '<!DOCTYPE a SYSTEM "e2.dtd"><a><b id="i1"/></a>',
     "dpe": '<!DOCTYPE a [<!ENTITY % p "<!ELEMENT a (#PCDATA)>">%p;<!ENTITY e "&#60;b/>">]><a>&e;</a>',
+    # --- DTD family e3.dtd: every DTD-grammar-dependent check (ENTITY/ENTITIES/NOTATION, ID/IDREF, defaults, enumerations,
+    #     NMTOKENS normalisation, content models, standalone); external subset only / with internal subset
+    "dcv": '<!DOCTYPE a SYSTEM "e3.dtd"><a><b id="i1" ent="pic" ents="pic pic2">&txt;</b><b ref="i1" t="y" nm=" n1  n2 "/><c n="gif"/></a>',
+    "dcv2": '<!DOCTYPE a SYSTEM "e3.dtd"><a>\n <b ents="pic2"/>\n <c/>\n</a>',
+    "dcbad": '<!DOCTYPE a SYSTEM "e3.dtd"><a><b id="i1" ent="nope" ents="pic nope2"/><b id="i1" ref="i9" t="z"/><c n="jpg"/><c/></a>',
+    "dcbad2": '<!DOCTYPE a SYSTEM "e3.dtd"><a><c n="png"/><b undeclared="1">&txt;&nope;</b></a>',
+    "dcint": '<!DOCTYPE a SYSTEM "e3.dtd" [<!ENTITY loc "local"><!ATTLIST c extra CDATA "ex">]><a><b ent="pic">&loc;&txt;</b><c/></a>',
+    "dcsa": '<?xml version="1.0" standalone="yes"?><!DOCTYPE a SYSTEM "e3.dtd"><a><b nm=" n1  n2 ">x</b></a>',
+    "dcroot": '<!DOCTYPE b SYSTEM "e3.dtd"><b ent="pic2">t</b>',
+    # --- fragments for DOMLSParser::parseWithContext
+    "fr1": '<x>t</x>', "fr2": '<y a="1"><z/> </y>', "frbad1": '<x>', "frbad2": '<x></y>', "frbad3": '<x a=1/>',
     # --- no DTD
     "plain": '<a><b id="i1" ref="i2">x</b><c/></a>',
     "plain2": '<?xml version="1.0" encoding="UTF-8"?><a d="1"><!--c--><?pi data?><b>t</b><![CDATA[<x>]]></a>',
@@ -101,6 +112,11 @@ DOCS = {
 XS_HEAD = '<xs:schema xmlns:xs="http://www.w3.org/2001/XMLSchema" '
 EXTS = {
     "e1.dtd": '<!ELEMENT a (b*)><!ELEMENT b (#PCDATA)><!ATTLIST b id ID #IMPLIED d CDATA "ext1"><!ENTITY e "ext-one">',
+    "e3.dtd": '<!ELEMENT a (b+,c?)><!ELEMENT b (#PCDATA)><!ELEMENT c (#PCDATA)>'
+              '<!ATTLIST b id ID #IMPLIED ref IDREF #IMPLIED ent ENTITY #IMPLIED ents ENTITIES #IMPLIED d CDATA "dflt" t (x|y) "x" '
+              'nm NMTOKENS #IMPLIED><!ATTLIST c n NOTATION (gif|png) #IMPLIED>'
+              '<!NOTATION gif SYSTEM "gif.exe"><!NOTATION png SYSTEM "png.exe">'
+              '<!ENTITY pic SYSTEM "pic.gif" NDATA gif><!ENTITY pic2 SYSTEM "pic2.png" NDATA png><!ENTITY txt "text-ent">',
     "e2.dtd": '<!ELEMENT a (b)><!ELEMENT b EMPTY><!ATTLIST b id ID #REQUIRED d CDATA "ext2">',
     "s1.xsd": XS_HEAD + 'targetNamespace="u1" xmlns:t="u1" elementFormDefault="qualified"><xs:element name="a"><xs:complexType>'
               '<xs:sequence><xs:element name="b" type="xs:int" maxOccurs="2"/></xs:sequence>'
@@ -127,6 +143,9 @@ V11_DOCS = {"v11", "v11b"}
 # documents with elements that are not declared in the schema they are validated against (trigger of F15u)
 UNDECL_DOCS = {"slax1", "slax2", "sbad1", "sbadn", "snohint", "nnohint", "nnohintbad"}
 SCHEMA_DOCS = [d for d in DOC_IDS if d.startswith("s")]
+DTD_FAMILY = ("e3.dtd", ["dcv", "dcv2", "dcbad", "dcbad2", "dcsa", "dcroot"], ["dcint"])   # (dtd, external-subset-only docs, + internal)
+EXT_DTD_DOCS = {"dext1", "dext2", "dcv", "dcv2", "dcbad", "dcbad2", "dcint", "dcsa", "dcroot"}
+FRAGS = ["fr1", "fr2", "frbad1", "frbad2", "frbad3"]
 FAMILIES = [("s1.xsd", ["sv1", "sbad1"]), ("s2.xsd", ["sv2", "sbad2"]), ("sn.xsd", ["svn", "sbadn"]),
             ("si.xsd", ["sinc", "sincbad", "sinc2"])]
 FEATURES = [("val", 3), ("ns", 2), ("schema", 2), ("skipdtd", 2), ("loaddtd", 2), ("exitfatal", 2), ("vcfatal", 2),
@@ -150,6 +169,9 @@ def write_workdir():
     os.makedirs(WORKDIR, exist_ok=True)
     for k, v in EXTS.items():
         with open(os.path.join(WORKDIR, k), "w") as f:
+            f.write(v)
+    for k, v in DOCS.items():
+        with open(os.path.join(WORKDIR, "d_%s.xml" % k), "w") as f:
             f.write(v)
 
 
@@ -193,7 +215,16 @@ def gen_history(rng, api, thorough):
         d = rng.choice(DOC_IDS)
         if d in V11_DOCS and rng.random() < 0.8:
             d = rng.choice(DOC_IDS)
-        if r < 0.42:
+        if d in FRAGS:
+            d = rng.choice(DOC_IDS)
+        r2 = rng.random()
+        if api == "ls" and r2 < 0.16:
+            ops.append("pc:%s:%d:%d" % (rng.choice(FRAGS), rng.randrange(1, 6), rng.randrange(4)))
+        elif api == "ls" and r2 < 0.24:
+            ops.append("pf:%s:%d" % (d, rng.randrange(4)))
+        elif r2 > 0.96:
+            ops.append("pu:%s" % d)
+        elif r < 0.42:
             ops.append("p:%s" % d)
         elif r < 0.54:
             ops.append("px:%s:%d" % (d, rng.randrange(1, 12)))
@@ -225,8 +256,8 @@ def gen_history(rng, api, thorough):
         else:
             ops.append("ul")
     fin = rng.choice(DOC_IDS)
-    if fin in V11_DOCS:
-        fin = rng.choice(DOC_IDS)
+    if fin in V11_DOCS or fin in FRAGS:
+        fin = rng.choice([x for x in DOC_IDS if x not in FRAGS and x not in V11_DOCS])
     tail = ":r" if (caching or rng.random() < 0.3) else ""
     return "H %s %s %s F:%s%s" % (api, sc, " ".join(ops), fin, tail)
 
@@ -259,6 +290,40 @@ def gen_cache_cross(rng, thorough):
                                         fin = pat[0] if k == 0 else rng.choice(docs)
                                         ops = cfg + mid + ["p:%s" % d for d in pat]
                                         out.append(("cross-%s-%s" % (api, sc), "H %s %s %s F:%s:t" % (api, sc, " ".join(ops), fin)))
+    return out
+
+
+def gen_dtd_cross(rng, thorough):
+    """cached DTD grammars: {loadGrammar(dtd, toCache) + useCachedGrammarInParse | cacheGrammarFromParse + earlier parse} x
+    {entity resolver | files} x {ignoreCachedDTD} x validation scheme, on DG and IG and all four APIs, over documents that
+    exercise every DTD-grammar-dependent check, DOCTYPE with the external subset only and with an internal subset; compared
+    with a fresh parser that reads the DTD inline (modulo resolution / DTDHandler events and doctype maps: F:doc:t)."""
+    dtd, ext_docs, int_docs = DTD_FAMILY
+    out = []
+    for api in APIS:
+        for sc in ("DG", "IG"):
+            for how in ("lg", "cp"):
+                for res in (1, 0):
+                    for ign in (0, 1):
+                        for fin in ext_docs + int_docs:
+                            cfg = ["s:val:%d" % rng.choice([1, 1, 2])]
+                            if rng.random() < 0.3:
+                                cfg.append("s:ns:1")
+                            if not res:
+                                cfg.append("s:resolver:0")
+                            if ign or fin in int_docs:
+                                # (a cached DTD and an internal subset exclude each other by design: "internal subset is not
+                                #  allowed when reusing the grammar" unless ignoreCachedDTD is set)
+                                cfg.append("s:igncached:1")
+                            pick = (lambda: rng.choice(ext_docs + (int_docs if (ign or fin in int_docs) else [])))
+                            if how == "lg":
+                                mid = ["lg:%s:d:1" % dtd, "s:usecache:1"]
+                                mid += ["p:%s" % pick() for _ in range(rng.randrange(0, 3))]
+                            else:
+                                mid = ["s:cache:1", "p:%s" % rng.choice(ext_docs)]
+                                if sc != "DG":      # (DG: a second parse after an external-DTD parse is crash class F15c)
+                                    mid += ["p:%s" % pick() for _ in range(rng.randrange(0, 2))]
+                            out.append(("dtdcross-%s-%s" % (api, sc), "H %s %s %s F:%s:t" % (api, sc, " ".join(cfg + mid), fin)))
     return out
 
 
@@ -328,7 +393,9 @@ def is_cfg(op):
 def shrink(xh, line):
     """drop operations while the implementation still reports a difference of the same class"""
     head, ops, fin = split_hist(line)
-    cls = lambda out: out.split()[0] if out else "?"
+    def cls(out):       # class of an answer: first token (configchanged: with the parameter name)
+        w = out.split()
+        return "?" if not w else (" ".join(w[:2]) if w[0] == "configchanged" else w[0])
     rc, out, _ = xh.run([line])
     want = cls(out[0]) if out else "?"
     changed = True
@@ -475,6 +542,15 @@ def run(ctx):
             cases.append(("exc-" + api, "H %s IG s:val:1 s:ns:1 s:schema:1 px:%s:%d F:dv2" % (api, d, k)))
             cases.append(("prog-" + api, "H %s IG s:val:1 s:ns:1 s:schema:1 pn:%s:%d F:dbad3" % (api, d, k - 1)))
     cases += gen_cache_cross(rng, thorough)
+    cases += gen_dtd_cross(rng, thorough)
+    # DOMLSParser: parseWithContext with every action / context kind / fragment, then a validating parse; filters; parseURI
+    for frag in FRAGS:
+        for action in range(1, 6):
+            for kind in range(4):
+                cases.append(("ls-ctx", "H ls IG s:val:1 pc:%s:%d:%d F:%s" % (frag, action, kind, ("dws", "dbad1", "dv1")[(action + kind) % 3])))
+    for api in APIS:
+        for mode in range(4):
+            cases.append(("ls-filter-" + api, "H %s IG s:val:1 pf:dv2:%d pu:dws F:dws" % (api, mode)))
     # locked pool: parses and loads that would add grammars
     for api in APIS:
         for sc in ("IG", "SG"):
@@ -577,6 +653,19 @@ def run(ctx):
             continue
         if v == "crash":
             continue            # handled when it happened
+        if v == "configchanged":
+            par = i.split()[1] if len(i.split()) > 1 else "?"
+            hd, hops, _f = split_hist(req)
+            if par in ("ns", "schema") and (hd[2] == "SG" or "us:SG" in hops) and ctx.find_known("F21b"):
+                known_seen.setdefault("F21b", req)
+                continue
+            small = shrink(xh, req)
+            ctx.violation("configchanged", {"request": small, "original_request": req, "impl": i[:3000],
+                                            "what": "a setting read back through the public getters (getFeature / getParameter / "
+                                                    "getXxx) changed although no configuration call was made: a parse or failed "
+                                                    "parse modified the configuration"})
+            unexplained += 1
+            continue
         if v in ("poolchanged", "adoptchanged", "harness-exception", "bad-request"):
             small = shrink(xh, req) if v in ("poolchanged", "adoptchanged") and req.startswith("H ") else req
             ctx.violation(v, {"request": small, "original_request": req, "impl": i[:3000], "what": {
@@ -618,6 +707,11 @@ def run(ctx):
         _, sm, _ = xm.run([small])
         sm0 = sm[0].strip() if sm else "?"
         fid = attribute(small, sm0)
+        if so and so[0].startswith("configchanged"):
+            # neutralising one finding turned the history into the configuration-readback class: same rule as above
+            w = so[0].split()
+            hd2, hops2, _f2 = split_hist(small)
+            fid = "F21b" if (len(w) > 1 and w[1] in ("ns", "schema") and (hd2[2] == "SG" or "us:SG" in hops2)) else None
         if fid and ctx.find_known(fid):
             known_seen.setdefault(fid, small)
             continue
@@ -650,6 +744,10 @@ def run(ctx):
         "F15s": "SGXMLScanner does not find a preloaded NO-namespace schema grammar (loadGrammar + useCachedGrammarInParse) "
                 "for the root element of an instance without schema-location hint: ElementNotDefined, while the same grammar "
                 "given inline (noNamespaceSchemaLocation) or preloaded into IGXMLScanner validates the document",
+        "F15d": "a DTD preloaded with loadGrammar(DTDGrammarType, toCache) + useCachedGrammarInParse loses the 'declared in the "
+                "external subset' marking of its declarations: for a standalone=\"yes\" document the standalone validity "
+                "constraints (defaulted attributes, normalisation) are not reported, while the same DTD read inline (or cached "
+                "from an earlier parse) reports them",
         "F15k": "cacheGrammarFromParse with a LOCKED grammar pool: the pool refuses the grammar (it stays in the per-parse bucket) "
                 "but its SchemaInfo is stored in the persistent fCachedSchemaInfoList, so the next parse treats the schema "
                 "as already seen, skips loading it and leaves the document unvalidated (no defaults, no type information)",
@@ -684,8 +782,8 @@ def f15c_class(req):
         return False
     ops = t[3:-1]
     dg = t[2] == "DG" or "us:DG" in ops
-    ext = any(o.split(":")[0] in ("p", "px", "pn", "pa") and o.split(":")[1] in ("dext1", "dext2") for o in ops) or \
-        t[-1].split(":")[1] in ("dext1", "dext2")
+    ext = any(o.split(":")[0] in ("p", "px", "pn", "pa", "pu", "pf") and o.split(":")[1] in EXT_DTD_DOCS for o in ops) or \
+        t[-1].split(":")[1] in EXT_DTD_DOCS
     return dg and "s:cache:1" in ops and ext
 
 
@@ -720,11 +818,19 @@ def f15k_class(req):
     return False
 
 
+def f15d_class(req):
+    """a DTD preloaded with loadGrammar is in play and the final document is a standalone="yes" document using it"""
+    head, ops, fin = split_hist(req)
+    return any(o.startswith("lg:") and o.split(":")[2] == "d" for o in ops) and fin.split(":")[1] == "dcsa"
+
+
 def candidates(req, model_answer):
     """finding ids that may explain a differing history: by the model's differing members, or by a finding's own predicate"""
     c = attribute_all(req, model_answer)
     if f15k_class(req):
         c.append("F15k")
+    if f15d_class(req):
+        c.append("F15d")
     return c
 
 
@@ -773,6 +879,8 @@ def neutralise(req, fid):
         ops = [o for o in ops if not o.startswith("pa:")]
     elif fid == "F15k":
         ops = [o for o in ops if o != "lk"]
+    elif fid == "F15d":
+        ops = [o for o in ops if not o.startswith("lg:")]
     elif fid == "F15u":
         ops = [o for o in ops if doc_of(o) not in UNDECL_DOCS]
     return " ".join(head + ops + [fin])
